@@ -104,7 +104,8 @@ static int is_http_version(const unsigned char *p, size_t n, int *maj, int *min)
 
 static void add_field(struct h1_field **arr, int *n, const unsigned char *name, size_t nl, const unsigned char *val, size_t vl)
 {
-	*arr = xrealloc(*arr, sizeof(**arr) * (size_t)(*n + 1));
+	/* capacity doubles at powers of two (realloc per element is quadratic under ASan) */
+	if (*n == 0 || (*n >= 8 && (*n & (*n - 1)) == 0)) *arr = xrealloc(*arr, sizeof(**arr) * (size_t)(*n < 8 ? 8 : *n * 2));
 	struct h1_field *f = &(*arr)[*n];
 	f->name = dupn(name, nl); f->name_len = nl;
 	f->value = dupn(val, vl); f->value_len = vl;
@@ -243,7 +244,9 @@ static enum h1_status decide_framing(struct h1_msg *m, const char *req_method, c
 
 static void body_add(struct h1_msg *m, const unsigned char *p, size_t n)
 {
-	m->body = xrealloc(m->body, m->body_len + n + 1);
+	size_t need = m->body_len + n + 1, cap = 64;
+	while (cap < m->body_len + 1) cap *= 2;          /* capacity implied by the current length */
+	if (!m->body || need > cap) { while (cap < need) cap *= 2; m->body = xrealloc(m->body, cap); }
 	memcpy(m->body + m->body_len, p, n);
 	m->body_len += n;
 }
